@@ -12,6 +12,7 @@ import VsbModel.Model.Config
 import VsbModel.Model.FileReader
 import VsbModel.Model.Restore
 import VsbModel.Model.SelfContained
+import VsbModel.Model.Logical
 import VsbModel.Model.FsTrace
 import VsbModel.Model.Proto
 import VsbModel.Model.Upload
@@ -534,9 +535,25 @@ def opRestore (j : Json) : Except String Json := do
     | some b => Json.mkObj [("wf", wfCheck b.archive), ("manifest_eq", decide (b.manifest = some (manifestOf hashOf b.archive))),
         ("complete", b.archiveComplete), ("fs", fsJson (fsOf b.archive))]
     | none => Json.null
+  -- the hypotheses of `restore_exact` (`restore_exact_checked`), evaluated on the stored group
+  let full := optField j "full"
+  let contentOf : String → Nat → Option (List Nat) := fun h n =>
+    match full.getObjVal? h with
+    | .ok (.arr a) => match a.toList with
+      | [c, l] => match c.getNat?, l.getNat? with
+        | .ok c, .ok l => if l = n then some (List.replicate n c) else none
+        | _, _ => none
+      | _ => none
+    | _ => none
+  let gen : Json := match generalCheck hashOf contentOf group target with
+    | some lg => match lg[target]? with
+      | some lt => Json.mkObj [("holds", true), ("fs", fsJson (fsOf lt.es)),
+          ("extern_files", (lt.es.filter (isExtE lt.stored)).length), ("earlier", target)]
+      | none => Json.mkObj [("holds", false)]
+    | none => Json.mkObj [("holds", false)]
   match restore hashOf group target with
-  | .err fs => pure (Json.mkObj [("result", "err"), ("fs", fsJson fs), ("selfcontained", sc)])
-  | .done fs ok => pure (Json.mkObj [("result", "done"), ("ok", ok), ("fs", fsJson fs), ("selfcontained", sc)])
+  | .err fs => pure (Json.mkObj [("result", "err"), ("fs", fsJson fs), ("selfcontained", sc), ("general", gen)])
+  | .done fs ok => pure (Json.mkObj [("result", "done"), ("ok", ok), ("fs", fsJson fs), ("selfcontained", sc), ("general", gen)])
 
 /-! ## traces -/
 def pathJson (p : List String) : Json := Json.arr (p.map Json.str).toArray
